@@ -181,6 +181,13 @@ class Built:
         c = AffineCoordinates(AFFINE[coords](len(shape))) if coords else None
         self.data = Data(coords=c, label="d")
         self.keep = []
+        # round 3: re-use of link OBJECTS.  share=True: structurally equal subtrees of the
+        # expressions of a case are built ONCE and the link object is re-used as operand wherever
+        # the subtree occurs (left, right, both sides, nested); ["o", key] leaves stand for the link
+        # object that backs the derived component `key` (same value as ["k", key])
+        self.share = False
+        self.memo = {}
+        self.linkobj = {}
 
     def add_stored(self, key, spec):
         arr = make_array(spec, self.shape)
@@ -207,7 +214,17 @@ class Built:
             return const_value(t[1])
         if t[0] == "k":
             return self.cids[t[1]]
-        return OPS[t[1]](self.tree(t[2]), self.tree(t[3]))
+        if t[0] == "o":
+            return self.linkobj[t[1]]
+        if not self.share:
+            return OPS[t[1]](self.tree(t[2]), self.tree(t[3]))
+        key = repr(t)
+        link = self.memo.get(key)
+        if link is None:
+            link = OPS[t[1]](self.tree(t[2]), self.tree(t[3]))
+            if isinstance(link, ComponentLink):
+                self.memo[key] = link
+        return link
 
     def _new_cid(self, key, prefix):
         """The identifier of `key`: a derived component that is added *before* a component reading
@@ -220,6 +237,7 @@ class Built:
 
     def _add_link(self, link, cid, raw):
         self.keep.append(link)
+        self.linkobj[self.key_of(cid)] = link
         if raw:
             # what `data[label] = DerivedComponent(...)` / session loading / the component manager
             # do: Data.add_component with a ready DerivedComponent does not look at the inputs
@@ -340,7 +358,7 @@ class Reference:
     def tree(self, t):
         if t[0] == "c":
             return const_value(t[1])
-        if t[0] == "k":
+        if t[0] in ("k", "o"):
             return self.key(t[1])
         a, b = self.tree(t[2]), self.tree(t[3])
         with np.errstate(all="ignore"):
@@ -386,7 +404,9 @@ def lit_value(text):
 def sx_tree(t, T):
     if t[0] == "c":
         return ["c", T.tok(const_value(t[1]))]
-    if t[0] == "k":
+    if t[0] in ("k", "o"):
+        # a link OBJECT used as operand has the value of the derived component it backs: for the
+        # value model of these families it is that component
         return ["k", t[1]]
     return ["b", t[1], sx_tree(t[2], T), sx_tree(t[3], T)]
 
@@ -532,11 +552,11 @@ def rand_tree(rng, depth, leaves, ops, exp_leaves, no_div=False, top=True, const
 
 
 def has_key(t):
-    return t[0] == "k" or (t[0] == "b" and (has_key(t[2]) or has_key(t[3])))
+    return t[0] in ("k", "o") or (t[0] == "b" and (has_key(t[2]) or has_key(t[3])))
 
 
 def tree_keys(t):
-    if t[0] == "k":
+    if t[0] in ("k", "o"):
         return [t[1]]
     if t[0] == "b":
         return tree_keys(t[2]) + tree_keys(t[3])
@@ -556,6 +576,52 @@ def shrink_tree(t):
             yield ["b", t[1], c, t[3]]
         for c in shrink_tree(t[3]):
             yield ["b", t[1], t[2], c]
+
+
+def subtrees(t):
+    if t[0] == "b":
+        yield t
+        for c in (t[2], t[3]):
+            for x in subtrees(c):
+                yield x
+
+
+def objectify(rng, t, keys, p=0.5):
+    """Replace leaves ["k", key] (key in `keys`: derived components of the case) by ["o", key]: the
+    link OBJECT that backs the component is used as operand instead of its identifier."""
+    if t[0] == "k" and t[1] in keys and rng.random() < p:
+        return ["o", t[1]]
+    if t[0] == "b":
+        return ["b", t[1], objectify(rng, t[2], keys, p), objectify(rng, t[3], keys, p)]
+    return t
+
+
+def reuse_variant(rng, t, leaves, ops=("add", "sub", "mul")):
+    """Expressions in which a subtree of `t` occurs again — with hash-consing (`share`) the SAME
+    link object is then an operand in several places.  Returns (t', extra tree): t' re-uses a
+    subtree of t next to t itself (or twice), the extra tree has the subtree as LEFT or RIGHT
+    operand of a further expression."""
+    subs = list(subtrees(t))
+    s1 = rng.choice(subs)
+    r = rng.random()
+    if r < 0.3:
+        t2 = ["b", rng.choice(ops), t, s1]
+    elif r < 0.6:
+        t2 = ["b", rng.choice(ops), s1, t]
+    elif r < 0.75:
+        t2 = ["b", rng.choice(ops), s1, s1]
+    else:
+        t2 = t
+    s2 = rng.choice(subs)
+    leaf = ["k", rng.choice(leaves)]
+    q = rng.random()
+    if q < 0.45:
+        extra = ["b", rng.choice(ops), s2, leaf]
+    elif q < 0.8:
+        extra = ["b", rng.choice(ops), leaf, s2]
+    else:
+        extra = ["b", rng.choice(ops), s2, s1]
+    return t2, extra
 
 
 # ------------------------------------------------------------------------------------------
@@ -593,6 +659,7 @@ class WorldFamily(Family):
 
     def build(self, case):
         b = Built(case["shape"], case.get("coords"))
+        b.share = bool(case.get("share"))
         for key, spec in case["stored"]:
             b.add_stored(key, spec)
         for key, l in case["derived"]:
@@ -823,6 +890,21 @@ class ExprFam(WorldFamily):
             if t[0] != "b":
                 t = ["b", "add", t, ["k", rng.choice(leaves)]]
             # the tree may be the target itself or an input of a further derived component
+            share = rng.random() < 0.4
+            if share:
+                # round 3: link OBJECTS are re-used — equal subtrees are one object (hash-consing
+                # in Built.tree), derived inputs enter as the link object that backs them, and a
+                # second derived attribute is built on a subtree of the first
+                t = objectify(rng, t, (DERIVED0, DERIVED0 + 1))
+                t, ex = reuse_variant(rng, t, leaves)
+                extra = [[DERIVED0 + 5, ["B", t]], [DERIVED0 + 6, ["B", ex]]]
+                if rng.random() < 0.5:
+                    extra.append([DERIVED0 + 7, ["B", ["b", rng.choice(["add", "mul", "sub"]),
+                                                       ["o", rng.choice([DERIVED0 + 5, DERIVED0 + 6])], ["o", DERIVED0 + 5]]]])
+                target = rng.choice([e[0] for e in extra])
+                yield {"shape": sh, "coords": coords, "stored": stored, "derived": derived + extra,
+                       "view": rand_view(rng, sh), "target": target, "arith": self.arith, "share": True}
+                continue
             extra = [[DERIVED0 + 5, ["B", t]]]
             target = DERIVED0 + 5
             if rng.random() < 0.25:
@@ -865,9 +947,21 @@ class ULink(WorldFamily):
                 froms = [rng.choice(cands) for _ in range(USER_ARITY[f])]
             extra = [[DERIVED0 + 5, ["U", froms, f, rng.random() < 0.4]]]
             target = DERIVED0 + 5
-            if rng.random() < 0.2:
+            q = rng.random()
+            if q < 0.2:
                 extra.append([DERIVED0 + 6, ["B", ["b", "sub", ["k", DERIVED0 + 5], ["k", rng.choice(leaves)]]]])
                 target = DERIVED0 + 6
+            elif q < 0.55:
+                # round 3: the user-function link OBJECT itself is an operand (left / right / twice /
+                # nested); the function must still be called with exactly its own inputs afterwards
+                me, leaf = ["o", DERIVED0 + 5], ["k", rng.choice(leaves)]
+                op = rng.choice(["add", "sub", "mul"])
+                extra.append([DERIVED0 + 6, ["B", rng.choice([["b", op, me, leaf], ["b", op, leaf, me],
+                                                             ["b", op, me, me]])]])
+                if rng.random() < 0.4:
+                    extra.append([DERIVED0 + 7, ["B", ["b", rng.choice(["add", "sub", "mul"]), ["o", DERIVED0 + 6],
+                                                       rng.choice([me, ["k", rng.choice(leaves)]])]]])
+                target = rng.choice([e[0] for e in extra])
             yield {"shape": sh, "coords": coords, "stored": stored, "derived": derived + extra,
                    "view": rand_view(rng, sh), "target": target}
 
@@ -998,9 +1092,19 @@ class ParsedFam(WorldFamily):
             refs = [[lab, key] for lab, key in zip(labels, keys)]
             extra = [[DERIVED0 + 5, ["X", text, refs, tr]]]
             target = DERIVED0 + 5
-            if rng.random() < 0.15:
+            q = rng.random()
+            if q < 0.15:
                 extra.append([DERIVED0 + 6, ["B", ["b", "add", ["k", DERIVED0 + 5], ["k", STORED0]]]])
                 target = DERIVED0 + 6
+            elif q < 0.4:
+                # round 3: the ParsedComponentLink OBJECT as an operand of binary links
+                me, leaf = ["o", DERIVED0 + 5], ["k", STORED0]
+                op = rng.choice(["add", "sub", "mul"])
+                extra.append([DERIVED0 + 6, ["B", rng.choice([["b", op, me, leaf], ["b", op, leaf, me],
+                                                             ["b", op, me, me]])]])
+                if rng.random() < 0.4:
+                    extra.append([DERIVED0 + 7, ["B", ["b", "sub", ["o", DERIVED0 + 6], me]]])
+                target = rng.choice([e[0] for e in extra])
             yield {"shape": sh, "coords": coords, "stored": stored, "derived": derived + extra,
                    "view": rand_view(rng, sh), "target": target}
 
@@ -1298,6 +1402,26 @@ class HistFam(Family):
             yield {"shape": sh, "ops": st + adds + [["add_s", STORED0, ov], ["remove", keymap["c"]]]}
             yield {"shape": sh, "ops": st + adds + [["radd_d", keymap["a"], ["b", "mul", ["k", STORED0 + 1], ["c", ["i", 3]]]],
                                                     ["remove", STORED0], ["remove", PIX0]]}
+        # round 3: the same expressions with the common subtree `S0 + 1` built ONCE (share): the
+        # link object is the left / right / both operand(s) of several derived attributes
+        s0 = ["b", "add", ["k", STORED0], ["c", ["i", 1]]]
+        Y, P = ["k", STORED0 + 1], ["k", PIX0]
+        for pat, trees in (("left", [s0, ["b", "mul", s0, Y], ["b", "sub", s0, P]]),
+                           ("right", [s0, ["b", "mul", Y, s0], ["b", "sub", P, s0]]),
+                           ("tops", [["b", "mul", s0, Y], ["b", "sub", s0, P]]),
+                           ("twice", [["b", "mul", s0, s0], ["b", "add", s0, Y], s0]),
+                           ("nested", [["b", "add", s0, Y], ["b", "mul", ["b", "add", s0, Y], P],
+                                       ["b", "sub", ["b", "mul", ["b", "add", s0, Y], P], s0]])):
+            adds = [["add_d", DERIVED0 + j, t] for j, t in enumerate(trees)]
+            for shared in (True, False):
+                tails = [[["remove", v]] for v in (STORED0, STORED0 + 1, PIX0, DERIVED0, DERIVED0 + 1)]
+                tails += [[["update", o, 90], ["remove", v]] for o in (STORED0, STORED0 + 1, DERIVED0)
+                          for v in (90, STORED0 + 1)]
+                for tl in tails:
+                    c = {"shape": sh, "ops": st + adds + tl}
+                    if shared:
+                        c["share"] = True
+                    yield c
         # component orders that do not respect the dependencies (reorder_components, forward adds)
         for c in order_cases(tier):
             yield c
@@ -1315,6 +1439,11 @@ class HistFam(Family):
             live_der = []
             fresh_s, fresh_d, fresh_n = STORED0 + 1, DERIVED0, 90
             L = rng.randint(2, maxlen)
+            # round 3: in half of the histories equal subtrees of the binary expressions are ONE
+            # link object (hash-consing in Built.tree), and new expressions are built on the trees
+            # of earlier ones — left, right, twice, nested
+            share = rng.random() < 0.5
+            prev_trees = []
             for _ in range(L):
                 r = rng.random()
                 live = live_prim + live_der
@@ -1347,6 +1476,23 @@ class HistFam(Family):
                     fresh_d += 1
                 elif r < 0.42:
                     t = rand_tree(rng, rng.randint(1, 2), live, ["add", "sub", "mul"], [], consts=INT_CONSTS)
+                    if share and prev_trees and rng.random() < 0.6:
+                        pt = rng.choice(prev_trees[-3:])
+                        leaf = ["k", rng.choice(live)]
+                        q = rng.random()
+                        op = rng.choice(["add", "sub", "mul"])
+                        if q < 0.35:
+                            t = ["b", op, pt, leaf]
+                        elif q < 0.6:
+                            t = ["b", op, leaf, pt]
+                        elif q < 0.75:
+                            t = ["b", op, pt, pt]
+                        elif q < 0.9:
+                            t = ["b", op, pt, rng.choice(prev_trees)]
+                        else:
+                            t = ["b", op, ["b", "add", pt, leaf], pt]
+                        if tree_depth(t) > 4:
+                            t = ["b", op, pt[2] if pt[2][0] == "b" else pt, leaf]
                     if rng.random() < 0.04:   # reads an id that is not (or no longer) in the dataset
                         t = ["b", "add", t, ["k", 89]]
                     if t[0] != "b":
@@ -1359,6 +1505,8 @@ class HistFam(Family):
                         ops.append(["add_d", fresh_d, t])
                         if 89 not in tree_keys(t):
                             live_der.append(fresh_d)
+                            if t[0] == "b":
+                                prev_trees.append(t)
                         fresh_d += 1
                 elif r < 0.54:
                     # a derived component E added BEFORE the derived component D it reads (the
@@ -1426,11 +1574,14 @@ class HistFam(Family):
                     if rng.random() < 0.05:
                         new = old
                     ops.append(["update", old, new])
-            yield {"shape": sh, "ops": ops}
+                    # expressions over the old identifier are not re-used after update_id
+                    prev_trees = [t for t in prev_trees if old not in tree_keys(t)]
+            yield {"shape": sh, "ops": ops, "share": share} if share else {"shape": sh, "ops": ops}
 
     def run_impl(self, case):
         T = Tokens(arith=True)
         b = Built(case["shape"], None)
+        b.share = bool(case.get("share"))
         extra = {}
         steps = []
 
@@ -1505,6 +1656,10 @@ class HistFam(Family):
                     b.data.update_id(cid_of(op[1]), new)
                 except ValueError:     # F22: `new` already names another component
                     err = "value-error"
+                # link objects built before this call are rewritten in place when the data set
+                # reaches them (and are stale otherwise): the trees they were memoised under no
+                # longer describe them — later expressions are built from new objects
+                b.memo.clear()
                 sx_ops.append(["update", op[1], op[2]])
                 valued = True
             elif kind == "reorder":   # [op, listed keys, exact]
@@ -1557,6 +1712,519 @@ class HistFam(Family):
             yield dict(case, ops=ops[:i] + ops[i + 1:])
 
 
+# ---- link OBJECTS: re-use, sharing, in-place update ----------------------------------------
+
+class Prog:
+    """Builder of an `obj` program: keeps count of the link objects / ParsedCommand objects so
+    that steps can name them by index (creation order = the index the driver uses)."""
+
+    def __init__(self, shape):
+        self.shape = list(shape)
+        self.steps = []
+        self.nobj = 0
+        self.ncmd = 0
+
+    def stored(self, key, salt):
+        self.steps.append(["add_s", key, det_spec(self.shape, [False] * len(self.shape), "i", salt)])
+
+    def bin(self, op, l, r, direct=False):
+        self.steps.append(["bin", op, l, r] + ([True] if direct else []))
+        self.nobj += 1
+        return self.nobj - 1
+
+    def fn(self, keys, f, ravel=False):
+        self.steps.append(["fn", list(keys), f, bool(ravel)])
+        self.nobj += 1
+        return self.nobj - 1
+
+    def cmd(self, text, refs, tr, dict_of=None):
+        """ParsedCommand(text, references).  dict_of = j: the very dict OBJECT that command j was
+        given is passed again (`refs = {...}; ParsedCommand(a, refs); ParsedCommand(b, refs)`)."""
+        self.steps.append(["cmd", text, [list(r) for r in refs], tr] + ([dict_of] if dict_of is not None else []))
+        self.ncmd += 1
+        return self.ncmd - 1
+
+    def pl(self, c):
+        self.steps.append(["pl", c])
+        self.nobj += 1
+        return self.nobj - 1
+
+    def sub(self, kind, key, alt=0):
+        """A link object of the given kind reading `key` (B: key + 1, U: f1(key), X: {x} * 2 - 1)."""
+        if kind == "B":
+            return self.bin(["add", "mul", "sub"][alt % 3], K(key), ["c", ["i", 1 + alt % 3]])
+        if kind == "U":
+            return self.fn([key], 1, bool(alt % 2))
+        c = self.cmd("{x} * 2 - 1", [["x", key]], ["b", "sub", ["b", "mul", ["r", "x", key], ["n", "2"]], ["n", "1"]])
+        return self.pl(c)
+
+    def case(self, tail=()):
+        return {"shape": self.shape, "steps": [list(x) for x in self.steps] + [list(x) for x in tail]}
+
+
+def K(key):
+    return ["k", key]
+
+
+def O(i):
+    return ["o", i]
+
+
+OBJ_PATTERNS = ("left", "right", "twice", "both", "nested", "nested-right", "const", "diamond")
+
+
+def obj_pattern(pr, kind, pat, X, Y, Z):
+    """Expressions that RE-USE link objects as operands.  Returns (s, tops): the shared sub-link
+    and the link objects built on top of it (in creation order)."""
+    s = pr.sub(kind, X)
+    if pat == "left":
+        return s, [pr.bin("mul", O(s), K(Y)), pr.bin("sub", O(s), K(Z))]
+    if pat == "right":
+        return s, [pr.bin("mul", K(Y), O(s)), pr.bin("sub", K(Z), O(s), direct=True)]
+    if pat == "twice":
+        return s, [pr.bin("mul", O(s), O(s)), pr.bin("add", O(s), K(Z))]
+    if pat == "both":
+        s2 = pr.sub("BUX"[("BUX".index(kind) + 1) % 3], Y, alt=1)
+        return s, [pr.bin("sub", O(s), O(s2)), pr.bin("mul", O(s2), K(Z)), pr.bin("add", O(s2), O(s))]
+    if pat == "nested":
+        d1 = pr.bin("add", O(s), K(Y))
+        e = pr.bin("mul", O(d1), K(Z))
+        g = pr.bin("sub", O(e), O(s))
+        return s, [d1, e, g]
+    if pat == "nested-right":
+        d1 = pr.bin("add", K(Y), O(s), direct=True)
+        e = pr.bin("mul", K(Z), O(d1))
+        g = pr.bin("sub", O(s), O(e))
+        return s, [d1, e, g]
+    if pat == "const":
+        d1 = pr.bin("mul", O(s), ["c", ["i", 2]])
+        d2 = pr.bin("sub", ["c", ["i", 3]], O(s))
+        e = pr.bin("add", O(d1), O(d2))
+        return s, [d1, d2, e]
+    # diamond of objects: e = (s + y) * (s - z)
+    d1 = pr.bin("add", O(s), K(Y))
+    d2 = pr.bin("sub", O(s), K(Z))
+    return s, [d1, d2, pr.bin("mul", O(d1), O(d2))]
+
+
+def obj_core(tier):
+    """Exhaustive core of the `obj` family: sub-link kind x re-use pattern x which of the objects
+    back a derived attribute (and in which order / under how many identifiers) x every removal /
+    update_id of an input, of the shared attribute, and update_id followed by a removal or by a
+    further construction on the renamed objects."""
+    sh = [2]
+    A, X, Y, Z = STORED0 - 1, STORED0, STORED0 + 1, STORED0 + 2
+    D = DERIVED0
+    n = 0
+    for kind in "BUX":
+        for pat in OBJ_PATTERNS:
+            for cfg in ("all", "tops", "s-last", "s-twice", "interleaved"):
+                n += 1
+                if tier == "quick" and cfg in ("s-last", "s-twice") and (n % 3) != 0:
+                    continue
+                pr = Prog(sh)
+                pr.stored(A, 7)
+                pr.stored(X, 1)
+                pr.stored(Y, 2)
+                pr.stored(Z, 3)
+                if cfg == "interleaved":
+                    # every object is added as soon as it exists: later constructions re-use link
+                    # objects that already back a derived attribute
+                    s = pr.sub(kind, X)
+                    pr.steps.append(["add", D, s])
+                    mark = len(pr.steps)
+                    pr2 = Prog(sh)
+                    pr2.nobj, pr2.ncmd = 0, 0
+                    s_, tops = obj_pattern(pr2, kind, pat, X, Y, Z)
+                    # replay the constructions of the pattern (skipping the one of `s`), adding each
+                    skip = 2 if kind == "X" else 1
+                    keys = {s: D}
+                    for j, st in enumerate(pr2.steps[skip:]):
+                        pr.steps.append(st)
+                        if st[0] in ("bin", "fn", "pl"):
+                            o = pr.nobj
+                            pr.nobj += 1
+                            keys[o] = D + len(keys)
+                            pr.steps.append(["add", keys[o], o])
+                        elif st[0] == "cmd":
+                            pr.ncmd += 1
+                    attached = keys
+                else:
+                    s, tops = obj_pattern(pr, kind, pat, X, Y, Z)
+                    attached = {}
+                    order = {"all": [s] + tops, "tops": tops, "s-last": tops + [s], "s-twice": [s] + tops + [s]}[cfg]
+                    for o in order:
+                        k = D + len(attached) if o not in attached else D + 20
+                        if o in attached:
+                            pr.steps.append(["add", k, o])       # the same link object under a second id
+                        else:
+                            attached[o] = k
+                            # the unchecked route for every third attachment
+                            pr.steps.append(["radd" if (n + k) % 3 == 0 else "add", k, o])
+                akeys = sorted(set(attached.values()))
+                tails = [[["remove", v]] for v in [X, Y, Z] + akeys[:2]]
+                for old in [X, Y] + ([attached[s]] if s in attached else []):
+                    tails.append([["update", old, 90], ["remove", 90]])
+                    tails.append([["update", old, 90], ["remove", Z], ["remove", Y]])
+                # construction on the renamed objects after update_id
+                o_new = pr.nobj
+                tails.append([["update", X, 90], ["bin", "add", O(s), K(Z)], ["add", D + 30, o_new], ["remove", Z]])
+                tails.append([["update", Z, 91], ["bin", "mul", O(tops[-1]), K(91)], ["add", D + 30, o_new], ["remove", 91]])
+                if tier == "quick":
+                    tails = tails[(n % 2)::2] + tails[-2:]
+                for t in tails:
+                    yield pr.case(t)
+    # two ParsedComponentLinks on ONE ParsedCommand object (as coded they share it), one of them
+    # also an operand; a user-function link under two identifiers
+    for variant in range(4):
+        pr = Prog(sh)
+        pr.stored(A, 7)
+        pr.stored(X, 1)
+        pr.stored(Y, 2)
+        c = pr.cmd("{x} - { y z }", [["x", X], ["y z", Y]], ["b", "sub", ["r", "x", X], ["r", "y z", Y]])
+        p1 = pr.pl(c)
+        p2 = pr.pl(c)
+        d = pr.bin("add", O(p1), K(Y)) if variant % 2 == 0 else pr.bin("mul", K(X), O(p2))
+        for j, o in enumerate([p1, p2, d] if variant < 2 else [d, p2]):
+            pr.steps.append(["add", D + j, o])
+        for t in ([["remove", X]], [["remove", Y]], [["update", X, 90], ["remove", 90]],
+                  [["update", Y, 90], ["remove", X]], [["update", X, 90], ["update", Y, 91], ["remove", 91]]):
+            yield pr.case(t)
+    # two ParsedCommands built from ONE reference dict object (as coded each makes its own copy):
+    # the first is attached, the second only after update_id — it still names the old identifier
+    for variant in range(3):
+        pr = Prog(sh)
+        pr.stored(A, 7)
+        pr.stored(X, 1)
+        pr.stored(Y, 2)
+        refs = [["x", X], ["y z", Y]]
+        c1 = pr.cmd("{x} - { y z }", refs, ["b", "sub", ["r", "x", X], ["r", "y z", Y]])
+        p1 = pr.pl(c1)
+        pr.steps.append(["add", D, p1])
+        if variant == 0:
+            c2 = pr.cmd("{x} * 2", refs[:1], ["b", "mul", ["r", "x", X], ["n", "2"]], dict_of=c1)
+            p2 = pr.pl(c2)
+            tails = [[["update", X, 90], ["add", D + 1, p2], ["remove", 90]],
+                     [["add", D + 1, p2], ["update", X, 90], ["remove", 90]]]
+        elif variant == 1:
+            c2 = pr.cmd("{x} * 2", refs[:1], ["b", "mul", ["r", "x", X], ["n", "2"]], dict_of=c1)
+            tails = [[["update", X, 90], ["pl", c2], ["add", D + 1, pr.nobj], ["remove", 90]],
+                     [["update", Y, 91], ["pl", c2], ["radd", D + 1, pr.nobj], ["remove", X]]]
+        else:
+            tails = [[["update", X, 90], ["cmd", "{ y z } + 1", [["y z", Y]], ["b", "add", ["r", "y z", Y], ["n", "1"]], c1],
+                      ["pl", pr.ncmd], ["add", D + 1, pr.nobj], ["remove", Y]]]
+        for t in tails:
+            yield pr.case(t)
+
+
+class ObjFam(Family):
+    """Link OBJECTS: expressions built by re-using link objects as operands (left, right, both, the
+    same object twice, nested to depth 2-3; binary, user-function and parsed links; two
+    ParsedComponentLinks on one ParsedCommand), several derived attributes backed by overlapping
+    objects (also one object under two identifiers), then removals and update_id (which rewrites
+    link objects in place).  Observables after EVERY step: `Data.components`,
+    `link.get_from_ids()` of every link object ever created, and — after every remove / update_id /
+    refused call and at the end — the value of every component (or that evaluating it raises)."""
+    name = "obj"
+    exhaustive = False
+    batch = 100
+    case_timeout = 60.0
+
+    def reset(self):
+        self._aux = None
+
+    def cases(self, tier, rng):
+        for c in obj_core(tier):
+            yield c
+        n = 2500 if tier == "quick" else 40000
+        for _ in range(n):
+            yield self.random_case(rng, tier)
+
+    def random_case(self, rng, tier):
+        sh = rng.choice([[2], [3], [2, 2]])
+        pr = Prog(sh)
+        A = STORED0 - 1
+        pr.steps.append(["add_s", A, stored_spec(rng, sh, "i", lo=-3, hi=3)])
+        live = []                        # identifiers believed to be components (approximation)
+        for j in range(rng.randint(2, 4)):
+            pr.steps.append(["add_s", STORED0 + j, stored_spec(rng, sh, "i", lo=-3, hi=3)])
+            live.append(STORED0 + j)
+        live.append(PIX0)
+        fresh_d, fresh_n = DERIVED0, 90
+        attached = {}                    # object -> identifiers it was added under
+        cmd_refs = []                    # per command: the reference dict it was built from
+        L = rng.randint(5, 11 if tier == "quick" else 15)
+
+        def pick():
+            return rng.choice(live) if live else STORED0
+
+        def operand(allow_const=True):
+            r = rng.random()
+            if pr.nobj and r < 0.55:
+                # re-use a link object: recent ones more often (nesting), any one sometimes
+                if rng.random() < 0.5:
+                    return O(rng.randrange(max(0, pr.nobj - 3), pr.nobj))
+                return O(rng.randrange(pr.nobj))
+            if allow_const and r < 0.65:
+                return ["c", list(rng.choice(INT_CONSTS))]
+            return K(pick())
+        if rng.random() < 0.8:
+            # most programs start with a link object (any kind) that is re-used at once
+            k0 = pick()
+            s0 = pr.sub(rng.choice("BUX"), k0, alt=rng.randrange(6))
+            if pr.ncmd:
+                cmd_refs.append([["x", k0]])
+            for _ in range(rng.randint(1, 2)):
+                l, rr = O(rng.randrange(s0, pr.nobj)), operand()
+                if rng.random() < 0.4:
+                    l, rr = rr, l
+                if l[0] == "c" and rr[0] == "c":
+                    rr = K(pick())
+                pr.bin(rng.choice(["add", "sub", "mul"]), l, rr, direct=rng.random() < 0.2)
+        for i in range(L):
+            r = rng.random()
+            late = i >= L // 2
+            if r < (0.30 if not late else 0.12):
+                l = operand()
+                rr = operand(allow_const=(l[0] != "c"))
+                if rng.random() < 0.15 and l[0] == "o":
+                    rr = list(l)                              # the same object twice
+                pr.bin(rng.choice(["add", "sub", "mul"]), l, rr, direct=rng.random() < 0.2)
+            elif r < (0.38 if not late else 0.16):
+                f = rng.choice([1, 2, 3])
+                pr.fn([pick() for _ in range(USER_ARITY[f])], f, rng.random() < 0.3)
+            elif r < (0.46 if not late else 0.20):
+                if pr.ncmd and rng.random() < 0.35:
+                    pr.pl(rng.randrange(pr.ncmd))            # another link on an existing command
+                elif cmd_refs and rng.random() < 0.3:
+                    # a further command from the reference dict OBJECT of an earlier one
+                    j = rng.randrange(len(cmd_refs))
+                    labels = [lab for lab, _ in cmd_refs[j]]
+                    keys = [key for _, key in cmd_refs[j]]
+                    tr = rand_ptree_int(rng, rng.randint(1, 2), labels, keys)
+                    used = sorted(set(ptree_refs(tr)))
+                    c = pr.cmd(pprint(tr, rng), [[lab, key] for lab, key in used], tr, dict_of=j)
+                    cmd_refs.append(cmd_refs[j])
+                    pr.pl(c)
+                else:
+                    k = rng.randint(1, 3)
+                    labels = rng.sample(TAG_LABELS, k)
+                    keys = [pick() for _ in range(k)]
+                    tr = rand_ptree_int(rng, rng.randint(1, 2), labels, keys)
+                    c = pr.cmd(pprint(tr, rng), [[lab, key] for lab, key in zip(labels, keys)], tr)
+                    cmd_refs.append([[lab, key] for lab, key in zip(labels, keys)])
+                    pr.pl(c)
+            elif r < (0.72 if not late else 0.45) and pr.nobj:
+                # attach: mostly objects that are not attached yet, sometimes an attached one again
+                cands = [o for o in range(pr.nobj) if o not in attached]
+                if cands and rng.random() < 0.85:
+                    o = rng.choice(cands)
+                else:
+                    o = rng.randrange(pr.nobj)
+                if rng.random() < 0.06 and live:
+                    k = rng.choice(live)                      # an identifier in use
+                else:
+                    k = fresh_d
+                    fresh_d += 1
+                    live.append(k)
+                attached.setdefault(o, []).append(k)
+                pr.steps.append(["radd" if rng.random() < 0.25 else "add", k, o])
+            elif r < 0.86:
+                k = rng.choice(live + [fresh_d + 7]) if live else fresh_d + 7
+                pr.steps.append(["remove", k])
+                if k in live and k != PIX0:
+                    live.remove(k)
+            else:
+                old = rng.choice(live + [fresh_d + 7]) if live else fresh_d + 7
+                if rng.random() < 0.12 and [k for k in live if k != old]:
+                    new = rng.choice([k for k in live if k != old])    # in use: refused
+                else:
+                    new = fresh_n
+                    fresh_n += 1
+                    if old in live:
+                        live[live.index(old)] = new
+                pr.steps.append(["update", old, new])
+        return pr.case()
+
+    def run_impl(self, case):
+        T = Tokens(arith=True)
+        b = Built(case["shape"], None)
+        extra = {}
+        objs, cmds, refdicts = [], [], []
+        sx_steps, obs = [], []
+
+        def cid_of(k):
+            if k in b.cids:
+                return b.cids[k]
+            if k not in extra:
+                extra[k] = ComponentID("n%d" % k)
+            b.cids[k] = extra[k]
+            return extra[k]
+
+        def operand(o):
+            if o[0] == "c":
+                return const_value(o[1])
+            if o[0] == "k":
+                return cid_of(o[1])
+            return objs[o[1]]
+
+        def sx_operand(o):
+            if o[0] == "c":
+                return ["c", T.tok(const_value(o[1]))]
+            return [o[0], o[1]]
+
+        def values():
+            out = []
+            for c in b.data.components:
+                k = b.key_of(c)
+                try:
+                    out.append([k, out_of(b.data[c], T)])
+                except IncompatibleAttribute:
+                    out.append([k, "incompatible"])
+                except RecursionError:
+                    out.append([k, "recursion"])
+                except Exception as exc:      # e.g. a user function called with the wrong inputs
+                    out.append([k, "raises-" + type(exc).__name__])
+            return out
+
+        def from_ids():
+            return [sorted(b.key_of(c) for c in o.get_from_ids()) for o in objs]
+        for st in case["steps"]:
+            err, valued = None, False
+            kind = st[0]
+            if kind == "add_s":
+                cid_of(st[1])
+                try:
+                    b.add_stored(st[1], st[2])
+                    arr = b.data[b.cids[st[1]]]
+                except ValueError:
+                    err = "value-error"
+                    arr = make_array(st[2], b.shape)
+                sx_steps.append(["addS", st[1], ["P"] + canon_arr(arr, T)])
+            elif kind == "bin":
+                l, r = operand(st[2]), operand(st[3])
+                if len(st) > 4 and st[4]:
+                    link = BinaryComponentLink(l, r, OPS[st[1]])
+                else:
+                    link = OPS[st[1]](l, r)       # the operator overloads of ComponentID / ComponentLink
+                objs.append(link)
+                sx_steps.append(["bin", st[1], sx_operand(st[2]), sx_operand(st[3])])
+            elif kind == "fn":
+                f = USER_FUNCS[st[2]]
+                if st[3]:
+                    f = _raveled(f)
+                objs.append(ComponentLink([cid_of(k) for k in st[1]], ComponentID("u"), using=f))
+                sx_steps.append(["fn", list(st[1]), st[2], bool(st[3])])
+            elif kind == "cmd":
+                if len(st) > 4 and st[4] is not None:
+                    refd = refdicts[st[4]]          # the caller's dict object, passed once more
+                    assert all(refd[lab] is cid_of(k) for lab, k in st[2])
+                else:
+                    refd = dict((lab, cid_of(k)) for lab, k in st[2])
+                refdicts.append(refd)
+                cmds.append(ParsedCommand(st[1], refd))
+                sx_steps.append(["cmd"] + sx_link(["X", st[1], st[2]], T)[1:])
+            elif kind == "pl":
+                objs.append(ParsedComponentLink(ComponentID("p"), cmds[st[1]]))
+                sx_steps.append(["pl", st[1]])
+            elif kind in ("add", "radd"):
+                cid = cid_of(st[1])
+                link = objs[st[2]]
+                try:
+                    if kind == "radd":
+                        link.set_to_id(cid)
+                        dc = DerivedComponent(b.data, link)
+                        b.keep.append(dc)
+                        b.data.add_component(dc, cid)
+                    else:
+                        b.data.add_component_link(link, cid)
+                except ValueError:
+                    err = "value-error"
+                sx_steps.append([kind, st[1], st[2]])
+            elif kind == "remove":
+                try:
+                    b.data.remove_component(cid_of(st[1]))
+                except ValueError:
+                    err = "value-error"
+                sx_steps.append(["remove", st[1]])
+                valued = True
+            elif kind == "update":
+                try:
+                    b.data.update_id(cid_of(st[1]), cid_of(st[2]))
+                except ValueError:
+                    err = "value-error"
+                sx_steps.append(["update", st[1], st[2]])
+                valued = True
+            keys = [b.key_of(c) for c in b.data.components]
+            if err:
+                obs.append([err, [keys, values(), from_ids()]])
+            elif valued:
+                obs.append([keys, values(), from_ids()])
+            else:
+                obs.append([keys, "-", from_ids()])
+        self._aux = (sx_steps, T)
+        self._keep = (b, objs, cmds)
+        return [obs, values(), from_ids()]
+
+    def line(self, case, pyout):
+        aux = self._aux
+        if aux is None:
+            return sx(["obj", [list(case["shape"]), [], [], "arith", []], pyout])
+        sx_steps, T = aux
+        nd = len(case["shape"])
+        init = []
+        for i in range(nd):
+            arr = np.broadcast_to(np.arange(case["shape"][i], dtype=np.int64).reshape([-1 if j == i else 1 for j in range(nd)]), tuple(case["shape"]))
+            init.append([PIX0 + i, ["C"] + canon_arr(arr, T)])
+        return sx(["obj", [list(case["shape"]), init, sx_steps, "arith", []], pyout])
+
+    def nontrivial(self, case, po):
+        return any(s[0] in ("remove", "update") for s in case["steps"]) and \
+            any(s[0] == "bin" and (s[2][0] == "o" or s[3][0] == "o") for s in case["steps"])
+
+    def signature(self, case, po, res):
+        kinds = sorted(set(s[0] for s in case["steps"]))
+        return {"steps": "+".join(kinds)}
+
+    def shrink(self, case):
+        """Drop one step (renumbering the link objects / commands the later steps name)."""
+        steps = case["steps"]
+        for i in range(len(steps) - 1, 0, -1):
+            st = steps[i]
+            made_obj = st[0] in ("bin", "fn", "pl")
+            made_cmd = st[0] == "cmd"
+            oi = sum(1 for x in steps[:i] if x[0] in ("bin", "fn", "pl"))
+            ci = sum(1 for x in steps[:i] if x[0] == "cmd")
+            out, ok = [], True
+            for x in steps[:i] + steps[i + 1:]:
+                x = [list(y) if isinstance(y, list) else y for y in x]
+                if x[0] == "bin":
+                    for j in (2, 3):
+                        if x[j][0] == "o" and made_obj:
+                            if x[j][1] == oi:
+                                ok = False
+                            elif x[j][1] > oi:
+                                x[j] = ["o", x[j][1] - 1]
+                elif x[0] in ("add", "radd") and made_obj:
+                    if x[2] == oi:
+                        ok = False
+                    elif x[2] > oi:
+                        x[2] -= 1
+                elif x[0] == "pl" and made_cmd:
+                    if x[1] == ci:
+                        ok = False
+                    elif x[1] > ci:
+                        x[1] -= 1
+                elif x[0] == "cmd" and made_cmd and len(x) > 4 and x[4] is not None:
+                    if x[4] == ci:
+                        ok = False
+                    elif x[4] > ci:
+                        x[4] -= 1
+                out.append(x)
+            if ok:
+                yield dict(case, steps=out)
+
+
 PROP = Property(
     id="C14",
     title="Derived attributes compute their defining expression and go with their inputs",
@@ -1566,16 +2234,20 @@ PROP = Property(
               "C14.reorder_is_permutation", "C14.remove_order_invariant", "C14.reorder_preserves_values",
               "C14.update_id_preserves_order", "C14.update_id_preserves_values",
               "C14.refusal_exact", "C14.refused_changes_nothing", "C14.call_refines_spec",
-              "C14.update_id_breaks_dependents", "C14.parse_print"],
-    families=[GramFam(), Bcl(), ExprFam(), ArithFam(), ULink(), ParsedFam(), HistFam()],
+              "C14.update_id_breaks_dependents", "C14.parse_print",
+              "C14.build_no_aliasing", "C14.heap_remove_closure", "C14.heap_getitem_elementwise",
+              "C14.heap_update_id_preserves", "C14.heap_update_visits_once", "C14.heap_calls_keep_invariant",
+              "C14.shared_list_breaks_remove"],
+    families=[GramFam(), Bcl(), ExprFam(), ArithFam(), ULink(), ParsedFam(), HistFam(), ObjFam()],
     trusted_base=[
         "numpy ufuncs are pure elementwise functions of (dtype, bit pattern) independent of array layout (`**` is only generated on operands whose result is exact, because numpy's SIMD and scalar pow differ in the last bit otherwise); numpy basic indexing, broadcast_to/broadcast_arrays striding (L0 model in Model/Derived.lean, the zero-stride pattern of results is compared in the bcl family)",
         "Python's expression evaluator and the tag regex of glue.core.parse (the Lean lexer/parser is compared with Python's own parser in the gram family)",
         "the reference evaluation in harness/props/c14.py only tabulates the operators' graphs (numpy applied to the full arrays); every verdict is computed by the Lean Spec",
+        "Python object identity / list mutation semantics as modelled by the heap of Model/DerivedHeap.lean (link objects, their _from list objects, ParsedCommand objects); `link.get_from_ids()` of every link object ever created is compared after every step of the obj family",
     ],
     assumptions=["pixel / world component values are inputs (read from the real dataset); their correctness is C04/C15"],
-    rule="exhaustive: all zero-stride patterns x operators x operand kinds (bcl), all leaf pairs x operators at depth 1 and all views of a fixed tree (expr/arith), all insertion orders of a 5-node dependency pattern x every removal, every component order (reorder_components / derived components added before their inputs) of chains of depth 2-3, a diamond, a pixel input and a cyclic pair x link kinds x every removal, the refused calls (pixel component as removal victim, update_id onto stored / pixel / derived ids from a stored, derived, pixel or unknown id, add_component across kinds) on every insertion order (hist); seeded random trees to depth 3/5, user functions, command strings, histories beyond; non-trivial = result with more than one element / history with a removal, update_id or reorder",
+    rule="exhaustive: all zero-stride patterns x operators x operand kinds (bcl), all leaf pairs x operators at depth 1 and all views of a fixed tree (expr/arith), all insertion orders of a 5-node dependency pattern x every removal, every component order (reorder_components / derived components added before their inputs) of chains of depth 2-3, a diamond, a pixel input and a cyclic pair x link kinds x every removal, the refused calls (pixel component as removal victim, update_id onto stored / pixel / derived ids from a stored, derived, pixel or unknown id, add_component across kinds) on every insertion order (hist); link OBJECTS (obj): sub-link kind (binary / user function / parsed) x 8 re-use patterns (left, right, same object twice, both sides, nested to depth 3, with constants, diamond) x which objects back a derived attribute x every removal / update_id of an input or of the shared attribute, two parsed links on one command, two commands from one reference dict; seeded random trees to depth 3/5 (40% with hash-consed subtrees and link objects as operands), user functions, command strings, histories and object programs beyond; non-trivial = result with more than one element / history with a removal, update_id or reorder / object program with a re-used link object and a removal or update_id",
 )
 
-for _f, _share in zip(PROP.families, (0.4, 1.0, 2.0, 1.0, 0.7, 1.5, 1.2)):
+for _f, _share in zip(PROP.families, (0.4, 1.0, 2.0, 1.0, 0.7, 1.5, 1.2, 1.2)):
     _f.budget_share = _share
